@@ -353,8 +353,8 @@ def run(ctx):
     kf = core.known_for("C08")
     ctx.coverage["rule"] = (
         "exhaustive finite grammar: 8 comparison operators x 2 positions of the missing operand x %d other operands "
-        "(literals of each kind, fields of each type, lists/tuples, None, another missing field, sequences holding a "
-        "missing field) x 5 boolean contexts x 2 engines; plus mixed-type streams through RecordReader/rdump and the "
+        "(literals of each kind, fields of each type incl. their degenerate values - empty / zero / the windows flavour -, "
+        "lists/tuples, None, another missing field, sequences holding a missing field) x 5 boolean contexts x 2 engines; plus mixed-type streams through RecordReader/rdump and the "
         "helper functions. distinct = distinct (operator, position, other operand, context, engine) tuple; every case "
         "is non-trivial (it has a missing operand)" % len(OTHERS))
     ok = core.standard_proof_stage(ctx, ["props/C08.vo"], "C08", THEOREMS, search_fn=search, gens=["gen_selector"])
